@@ -173,7 +173,18 @@ def replaceByte (s : Text) (old : Byte) (new : Text) : Text :=
 
 def ofString (s : String) : Text := s.toUTF8.toList
 
-/-- decimal rendering, `strconv.Itoa` for naturals -/
-def natToText (n : Nat) : Text := ofString (toString n)
+/-- decimal digits of `n`, most significant first (`fuel` bounds the number of digits) -/
+def natToTextAux : Nat → Nat → Text → Text
+  | 0, _, acc => acc
+  | fuel + 1, n, acc =>
+    let acc' := UInt8.ofNat (48 + n % 10) :: acc
+    if n < 10 then acc' else natToTextAux fuel (n / 10) acc'
 
+/-- decimal rendering, `strconv.Itoa` / `%d` for naturals (kernel-reducible, unlike `toString`) -/
+def natToText (n : Nat) : Text := natToTextAux (n + 1) n []
+
+end GoSnaps
+
+namespace GoSnaps
+example : natToText 0 = [48] ∧ natToText 7 = [55] ∧ natToText 10 = [49, 48] ∧ natToText 1203 = [49, 50, 48, 51] := by decide
 end GoSnaps
